@@ -55,5 +55,20 @@ func (a jsonArray) Patch(d Diff) (JsonNode, error) {
 func (a jsonArray) patch(pathBehind, pathAhead path, oldValues, newValues []JsonNode, strategy patchStrategy) (JsonNode, error) {
 	_, metadata, _ := pathAhead.next()
 	n := dispatch(a, metadata)
-	return n.patch(pathBehind, pathAhead, oldValues, newValues, strategy)
+	patched, err := n.patch(pathBehind, pathAhead, oldValues, newValues, strategy)
+	if err != nil {
+		return nil, err
+	}
+	// The list, set or multiset reading belongs to this hunk only. Hand
+	// back a plain array so the patched document can be read in any
+	// other way afterwards, like a freshly parsed one.
+	switch t := patched.(type) {
+	case jsonList:
+		return jsonArray(t), nil
+	case jsonSet:
+		return jsonArray(t), nil
+	case jsonMultiset:
+		return jsonArray(t), nil
+	}
+	return patched, nil
 }
